@@ -854,6 +854,38 @@ func c11KeyInputs(w *World, r *Report, sites []*cachingSite) {
 					}
 				}
 				r.Ob(ri, fmt.Sprintf("%s|param-in-digest|%d:%s", w.FnName(k), i, p.Type().String()), k.Pos(), ok, "parameter "+p.Name()+" of the key function never reaches the digest")
+				// a map takes part with its values, not only with its keys
+				if _, isMap := p.Type().Underlying().(*types.Map); isMap && ok {
+					vals := false
+					for _, sv := range sinks {
+						if dependsOn(w, sv, func(v ssa.Value) bool {
+							switch x := v.(type) {
+							case *ssa.Lookup:
+								return stripConv(x.X) == ssa.Value(p)
+							case *ssa.Extract:
+								if nx, isN := x.Tuple.(*ssa.Next); isN && x.Index == 2 {
+									if rg, isR := nx.Iter.(*ssa.Range); isR && stripConv(rg.X) == ssa.Value(p) {
+										return true
+									}
+								}
+							case *ssa.Call:
+								n := callName(x.Common())
+								if strings.HasPrefix(n, "maps.Keys") {
+									return false
+								}
+								for _, a := range x.Common().Args {
+									if stripConv(a) == ssa.Value(p) {
+										return true // the whole map handed to a marshaller / formatter / maps.Values
+									}
+								}
+							}
+							return false
+						}) {
+							vals = true
+						}
+					}
+					r.Ob(ri, fmt.Sprintf("%s|map-values-in-digest|%d:%s", w.FnName(k), i, p.Type().String()), k.Pos(), vals, "only the keys of the map parameter "+p.Name()+" reach the digest, not its values: two requests that differ in a value share one cache entry")
+				}
 			}
 		}
 	}
